@@ -68,6 +68,7 @@ def _brink_strategy(tier, name):
             "lambdas": [0.0] + lam + [float(2.0**40)],
             "fixed": draw(st.lists(gen.floats(-8.0, 8.0, 32), min_size=2, max_size=2)),
             "n_markers": draw(st.integers(1, 9)),
+            "inplace": draw(st.integers(0, 2)) == 0,
         }
 
     return case()
@@ -104,6 +105,11 @@ def _brink_body(case, ctx):
 
     def run(lam):
         out = np.full_like(f, 12345.0)
+        fin = f
+        if case.get("inplace") and name != "lagrangian":
+            # penalisation applied in place: the output argument is a fresh view OBJECT of the input's memory (e.g. velocity[:])
+            fin = f.copy()
+            out = fin[...]
         with ctx.repo_call(f"brinkmann {name}"):
             if name == "lagrangian":
                 dt = [1.0, 0.25, 2.0 ** -7][case["n_markers"] % 3]  # penalty = coefficient * dt
@@ -112,17 +118,17 @@ def _brink_body(case, ctx):
                 k = _cached((name, case["dtype"], thr), lambda: getattr(spne, f"gen_brinkmann_penalise_pyst_kernel_{dim}d")(
                     real_t=real_t, num_threads=thr, field_type="vector" if vec else "scalar"))
                 if vec:
-                    k(penalised_vector_field=out, penalty_factor=lam, char_field=chi, penalty_vector_field=p, vector_field=f)
+                    k(penalised_vector_field=out, penalty_factor=lam, char_field=chi, penalty_vector_field=p, vector_field=fin)
                 else:
-                    k(penalised_field=out[0], penalty_factor=lam, char_field=chi, penalty_field=p[0], field=f[0])
+                    k(penalised_field=out[0], penalty_factor=lam, char_field=chi, penalty_field=p[0], field=fin[0])
             else:
                 k = _cached((name, case["dtype"], thr), lambda: spne.gen_brinkmann_penalise_vs_fixed_val_pyst_kernel_2d(
                     real_t=real_t, num_threads=thr, field_type="vector" if vec else "scalar"))
                 if vec:
                     k(penalised_vector_field=out, penalty_factor=lam, char_field=chi, penalty_val=[float(p[0].flat[0]), float(p[1].flat[0])],
-                      vector_field=f)
+                      vector_field=fin)
                 else:
-                    k(penalised_field=out[0], penalty_factor=lam, char_field=chi, penalty_val=float(p[0].flat[0]), field=f[0])
+                    k(penalised_field=out[0], penalty_factor=lam, char_field=chi, penalty_val=float(p[0].flat[0]), field=fin[0])
         return out
 
     F, P, C = f.astype(np.float64), p.astype(np.float64), np.broadcast_to(chi.astype(np.float64), f.shape)
